@@ -316,9 +316,9 @@ class RaggedArray(IndexableArray, np.lib.mixins.NDArrayOperatorsMixin):
         if method == "accumulate":
             return self._accumulate(ufunc, inputs[0], **kwargs)
         datas = []
-        inputs = [np.asanyarray(i) if not hasattr(i, "dtype") else i
+        inputs = [i if isinstance(i, Number) or hasattr(i, "dtype") else np.asanyarray(i)
                   for i in inputs]
-        result_type = np.result_type(*(i.dtype for i in inputs))
+        result_type = np.result_type(*(i if isinstance(i, Number) else i.dtype for i in inputs))
         for input in inputs:
             if isinstance(input, Number) or (isinstance(input, np.ndarray) and input.ndim == 0):
                 datas.append(input)
